@@ -8,8 +8,8 @@ There is no model of rustfmt's rewriters here.  `RF.Tok.equiv cfg a b` (op `tok.
 produces in `rfverif c01`; this file proves, FOR ALL token lists, what an `ok` of the validator
 certifies.
 
-* `soft cfg t`: delimiters, `,` `;` `|` `<` `>` `:`, the keywords `where` `for` `in`, the literal `"C"`
-  and (only with `use_try_shorthand`) `try` `!` `?`.  Everything else is *hard*: identifiers,
+* `soft cfg t`: delimiters, `,` `;` `|` `<` `>` `:` `+` (a trailing `+` of a bound list), the keywords
+  `where` `for` `in`, the literal `"C"` and (only with `use_try_shorthand`) `try` / `r#try` `!` `?`.  Everything else is *hard*: identifiers,
   lifetimes, literals, every other keyword and operator, doc comments (`hard cfg t = !soft cfg t`).
 * `norm cfg = post cfg ∘ regions cfg ∘ mid cfg`.  `mid` re-spells single tokens (rules 10–13: doc
   comments, string continuations, literal spelling, `x.0.0`), `regions` replaces every maximal run
@@ -96,8 +96,8 @@ theorem firstDiff_none_iff (cfg : Cfg) (a b : List Tok) : firstDiff cfg a b = no
 /-- One lemma per rule of the pipeline.  `outside S ts` is `ts` without the tokens of class `S`; the
 classes are
 `clsDelim` (any delimiter), `clsAbi` (`"C"`), `clsVis` (`in`, `:`), `clsEmpty` (`<` `>` `for` `where`
-`:`), `clsPipe` (`|`), `clsSemi` (`;`), `clsComma` (`,`), `clsBlock` (delimiters and `,`), `clsTry`
-(`try` `!` `?` and delimiters), `clsFis` (`:` and identifiers), `clsWild` (`_` `,` `.`). -/
+`:` `+`), `clsPipe` (`|`), `clsSemi` (`;`), `clsComma` (`,`), `clsBlock` (delimiters and `,`), `clsTry`
+(`try` / `r#try` `!` `?` `,` and delimiters), `clsFis` (`:` and identifiers, raw ones included), `clsWild` (`_` `,` `.`). -/
 theorem norm_rule_local (ts : List Tok) :
     outside clsDelim (runRule ruleVec ts) = outside clsDelim ts ∧
     outside clsAbi (runRule ruleAbi ts) = outside clsAbi ts ∧
